@@ -772,6 +772,49 @@ func rC03Iterator(w *World, r *Report) {
 		}
 	}
 	// Value: every non-constant return is (*a.data)[a.idx]
+	// the position predicates judge positions, not contents: Next, ExistsNext and IsLast call nothing but len() of the
+	// backing slice and never look at an element (a blank or empty token is a token; capacity is not length)
+	for _, name := range []string{nIterNext, "(*sliceiterator.Iterator).ExistsNext", "(*sliceiterator.Iterator).IsLast"} {
+		fn := w.Fn(name)
+		if fn == nil {
+			continue // not every version has all three
+		}
+		bad := ""
+		// a hook that is nil unless the program installs one (a field the reference tree does not have) may be told
+		// about the step: what happens under `hook != nil` is not part of the position logic
+		underHook := func(b *ssa.BasicBlock) bool {
+			for _, f := range factsAt(b) {
+				if f.Op == token.NEQ && f.Y != nil && isNilConst(f.Y) {
+					if ld, ok := f.X.(*ssa.UnOp); ok && ld.Op == token.MUL {
+						if fa, ok := ld.X.(*ssa.FieldAddr); ok && !isBaselineField(fieldOfAddr(fa)) {
+							return true
+						}
+					}
+				}
+			}
+			return false
+		}
+		eachInstr(fn, func(in ssa.Instruction) {
+			if underHook(in.Block()) {
+				return
+			}
+			switch x := in.(type) {
+			case ssa.CallInstruction:
+				good := false
+				if calleeName(x) == "builtin:len" && len(x.Common().Args) == 1 {
+					if l2, ok := x.Common().Args[0].(*ssa.UnOp); ok && l2.Op == token.MUL {
+						_, good = loadOfField(l2.X, fData)
+					}
+				}
+				if !good {
+					bad = w.IPos(in) + " (" + calleeName(x) + ")"
+				}
+			case *ssa.IndexAddr, *ssa.Index:
+				bad = w.IPos(in) + " (reads an element)"
+			}
+		})
+		ru.Check(bad == "", name+"/position-only", w.Pos(fn.Pos()), "decided from idx and len(*data) alone", "whether a token follows is decided from something other than the position and the length of the argument list (at "+bad+"): an empty or blank token, or spare capacity of the slice, changes where the command line ends")
+	}
 	checkElemReturn := func(name string, off int64) {
 		fn := w.Fn(name)
 		if fn == nil {
